@@ -5,11 +5,12 @@
      1  spec: the sample-pair enumerations as comprehensions
      2  impl-model: the loops of high_order/_base.py exactly as coded (matrices as functions, result buffer =
         np.empty, running offset cnt, slice assignment, transpose / broadcast / transpose)
-     3  dtypes and the promotion table (repaired code: numpy.promote_types)
+     3  dtypes and numpy.promote_types on the lattice used (bool, 8..64-bit integers, float16/32/64)
      4  frames (slice -> range, int, list, Ellipsis, None), dispatch of _combination
      5  spec of the four combination preprocesses on rows of exact rationals, case record + check
-     6  first-order preprocesses, case record + check
-     7  time-frequency preprocesses: compositions around the FFT oracle (Section variables), case record + check *)
+     6  first-order preprocesses (square, center, standardize, ToPower, CenterOn, StandardizeOn, serialize_bit)
+     7  time-frequency preprocesses: compositions around the FFT oracles (Section variables), case record + check
+     8  row-independence oracle on the code, promote_types tabulation *)
 From Coq Require Import NArith ZArith QArith Qcanon List Bool Lia.
 From ScaredV Require Import Run.Compare Lib.QcSum.
 Import ListNotations.
@@ -32,7 +33,7 @@ Definition pairs_two (n1 n2 : nat) : list (nat * nat) :=
 Definition pairs_p2p (n : nat) : list (nat * nat) := map (fun i => (i, i)) (seq 0 n).
 
 (* point to point as numpy evaluates op(chunk_1, chunk_2): equal widths, or one operand of width 1 is broadcast
-   (reachable only when one frame is None); None = numpy refuses *)
+   (reachable only when frame_1 is None); None = numpy refuses *)
 Definition pairs_p2p_bcast (n1 n2 : nat) : option (list (nat * nat)) :=
   if (n1 =? n2)%nat then Some (pairs_p2p n1)
   else if (n1 =? 1)%nat then Some (map (fun j => (0%nat, j)) (seq 0 n2))
@@ -182,7 +183,7 @@ Definition rows_of_mat {A} (M : mat A) : list (list A) :=
 Inductive dtype := DBool | DI8 | DU8 | DI16 | DU16 | DI32 | DU32 | DI64 | DU64 | DF16 | DF32 | DF64.
 
 Definition all_dtypes : list dtype := [DBool; DI8; DU8; DI16; DU16; DI32; DU32; DI64; DU64; DF16; DF32; DF64].
-Definition all_precs : list prec := [F32; F64].
+Definition float_dtypes : list dtype := [DF16; DF32; DF64].
 
 Definition dtype_eqb (a b : dtype) : bool :=
   match a, b with
@@ -194,6 +195,8 @@ Definition dtype_eqb (a b : dtype) : bool :=
 Definition is_float (d : dtype) : bool := match d with DF16 | DF32 | DF64 => true | _ => false end.
 Definition is_int (d : dtype) : bool :=
   match d with DI8 | DU8 | DI16 | DU16 | DI32 | DU32 | DI64 | DU64 => true | _ => false end.
+Definition is_signed (d : dtype) : bool := match d with DI8 | DI16 | DI32 | DI64 => true | _ => false end.
+Definition is_unsigned (d : dtype) : bool := match d with DU8 | DU16 | DU32 | DU64 => true | _ => false end.
 
 (* storage width in bits *)
 Definition dt_bits (d : dtype) : Z :=
@@ -212,7 +215,10 @@ Definition dt_range (d : dtype) : option (Z * Z) :=
   | _ => None
   end%Z.
 
-(* significand precision of the float dtypes (bits, hidden bit included) and largest binade *)
+Definition in_range (d : dtype) (z : Z) : Prop :=
+  match dt_range d with Some (lo, hi) => (lo <= z <= hi)%Z | None => False end.
+
+(* significand precision of the float dtypes (bits, hidden bit included); 2^max_exp is the first power of two that overflows *)
 Definition sig_bits (d : dtype) : Z := match d with DF16 => 11 | DF32 => 24 | DF64 => 53 | _ => 0 end.
 Definition max_exp (d : dtype) : Z := match d with DF16 => 16 | DF32 => 128 | DF64 => 1024 | _ => 0 end.
 
@@ -226,24 +232,43 @@ Definition value_bits (d : dtype) : Z :=
 (* every value of dtype [d] is exactly representable in the float dtype [f] *)
 Definition exact_in (d f : dtype) : bool := is_float f && (value_bits d <=? sig_bits f)%Z.
 
-Definition dtype_of_prec (p : prec) : dtype := match p with F32 => DF32 | F64 => DF64 end.
-Definition prec_of_dtype (d : dtype) : option prec := match d with DF32 => Some F32 | DF64 => Some F64 | _ => None end.
-
 (* order of the float dtypes *)
 Definition float_le (a b : dtype) : bool := is_float a && is_float b && (sig_bits a <=? sig_bits b)%Z.
 
-(* numpy.promote_types(traces.dtype, precision) for precision in {float32, float64} — the repaired code *)
-Definition promote (d : dtype) (p : prec) : dtype :=
-  match p with
-  | F64 => DF64
-  | F32 => match d with DI32 | DU32 | DI64 | DU64 | DF64 => DF64 | _ => DF32 end
+Definition signed_of_bits (b : Z) : dtype :=
+  if (b <=? 8)%Z then DI8 else if (b <=? 16)%Z then DI16 else if (b <=? 32)%Z then DI32 else DI64.
+Definition larger (a b : dtype) : dtype := if (dt_bits a <? dt_bits b)%Z then b else a.
+
+(* the smallest float dtype numpy considers safe for an integer dtype: more bytes than the integer has *)
+Definition float_for_int (d : dtype) : dtype :=
+  if (dt_bits d <=? 8)%Z then DF16 else if (dt_bits d <=? 16)%Z then DF32 else DF64.
+
+(* numpy.promote_types on this lattice (hand model; compared entry by entry with the live numpy on every run) *)
+Definition promote2 (a b : dtype) : dtype :=
+  if dtype_eqb a b then a else
+  match a, b with
+  | DBool, x | x, DBool => x
+  | _, _ =>
+    if is_float a && is_float b then larger a b
+    else if is_float a then larger a (float_for_int b)
+    else if is_float b then larger b (float_for_int a)
+    else if (is_signed a && is_signed b) || (is_unsigned a && is_unsigned b) then larger a b
+    else
+      let s := if is_signed a then a else b in
+      let u := if is_signed a then b else a in
+      if (dt_bits u <? dt_bits s)%Z then s
+      else if (dt_bits u =? 64)%Z then DF64
+      else signed_of_bits (2 * dt_bits u)
   end.
 
-(* the code as found: max(traces.dtype, precision) under the safe-cast partial order, where `a < b` means
-   can_cast(a, b) and a <> b; max(a, b) returns b if b > a else a *)
-Definition can_cast_to_float (d : dtype) (p : prec) : bool := exact_in d (dtype_of_prec p).
-Definition promote_old (d : dtype) (p : prec) : dtype :=
-  if can_cast_to_float d p && negb (dtype_eqb d (dtype_of_prec p)) then dtype_of_prec p else d.
+(* the repaired code: dtype = numpy.promote_types(traces.dtype, precision) *)
+Definition promote (d p : dtype) : dtype := promote2 d p.
+
+(* the code as found (before 330dad2): max(traces.dtype, precision) under the safe-cast partial order, where `a < b`
+   means can_cast(a, b) and a <> b; max(a, b) returns b if b > a else a *)
+Definition can_cast_safe (a b : dtype) : bool := dtype_eqb (promote2 a b) b.
+Definition promote_old (d p : dtype) : dtype :=
+  if can_cast_safe d p && negb (dtype_eqb d p) then p else d.
 
 (* two's complement wrap of an integer to a storage dtype (what integer arithmetic does when no promotion happens) *)
 Definition wrap_to (d : dtype) (z : Z) : Z :=
@@ -251,9 +276,6 @@ Definition wrap_to (d : dtype) (z : Z) : Z :=
   | Some (lo, hi) => ((z - lo) mod (hi - lo + 1) + lo)%Z
   | None => z
   end.
-
-(* promotion of an array of dtype [d] with an array of float dtype f (given mean / std) *)
-Definition promote_f (d : dtype) (f : prec) : dtype := promote d f.
 
 (* ================================================================ 4. frames and dispatch *)
 
@@ -334,7 +356,13 @@ Record comb_cfg := {
 
 Definition is_fnone (f : frame_spec) : bool := match f with FNone => true | _ => false end.
 
-Definition stored_len (s : stored_frame) : option nat := match s with SIdx l => Some (length l) | _ => None end.
+(* the length test of the point-to-point classes: Some true = passes, Some false = PreprocessError, None = TypeError *)
+Definition p2p_len_ok (s1 s2 : stored_frame) : option bool :=
+  match s1, s2 with
+  | SNone, _ | _, SNone => Some true
+  | SIdx l1, SIdx l2 => Some (length l1 =? length l2)%nat
+  | _, _ => None                         (* len(Ellipsis) is a TypeError *)
+  end.
 
 (* _combination(...) followed by __call__ on traces of width w: which loop runs on which columns *)
 Definition comb_dispatch (cfg : comb_cfg) (w : nat) : outcome comb_kind :=
@@ -355,13 +383,7 @@ Definition comb_dispatch (cfg : comb_cfg) (w : nat) : outcome comb_kind :=
         (* _CombinationPointToPoint *)
         match set_frame (cf_frame1 cfg), set_frame (cf_frame2 cfg) with
         | Some s1, Some s2 =>
-            let len_ok :=
-              match s1, s2 with
-              | SNone, _ | _, SNone => Some true
-              | SIdx l1, SIdx l2 => Some (length l1 =? length l2)%nat
-              | _, _ => None                         (* len(Ellipsis) is a TypeError *)
-              end in
-            match len_ok with
+            match p2p_len_ok s1 s2 with
             | Some true =>
                 bind_outcome (frame_columns w true s1) (fun f1 =>
                 bind_outcome (frame_columns w true s2) (fun f2 =>
@@ -392,6 +414,9 @@ Definition qcabs (x : Qc) : Qc := if Qle_bool 0 x then x else - x.
 Definition qcmax (a b : Qc) : Qc := if Qle_bool a b then b else a.
 Definition qc_of_nat (n : nat) : Qc := Q2Qc (inject_Z (Z.of_nat n)).
 Definition qc_of_z (z : Z) : Qc := Q2Qc (inject_Z z).
+Definition qc_le (a b : Qc) : bool := Qle_bool a b.
+Definition qc_lt (a b : Qc) : bool := negb (Qle_bool b a).
+Definition qc_eqb (a b : Qc) : bool := Qeq_bool a b.
 
 Inductive comb_op := OpProduct | OpCenteredProduct | OpDifference | OpAbsDifference.
 
@@ -404,8 +429,8 @@ Definition op_fun (o : comb_op) : Qc -> Qc -> Qc :=
 
 (* spec, one trace: the operation applied to the documented pairs, in the documented order.
    [f1], [f2] are the columns of the two frames; a pair (i, j) combines sample f1[i] with sample f2[j]. *)
-Definition comb_row (op : Qc -> Qc -> Qc) (pairs : list (nat * nat)) (f1 f2 : list nat) (row : list Qc) : list Qc :=
-  map (fun p => op (nth (nth (fst p) f1 0%nat) row 0) (nth (nth (snd p) f2 0%nat) row 0)) pairs.
+Definition comb_row {A} (d : A) (op : A -> A -> A) (pairs : list (nat * nat)) (f1 f2 : list nat) (row : list A) : list A :=
+  map (fun p => op (nth (nth (fst p) f1 0%nat) row d) (nth (nth (snd p) f2 0%nat) row d)) pairs.
 
 Definition column_of (T : list (list Qc)) (j : nat) : list Qc := map (fun r => nth j r 0) T.
 
@@ -423,7 +448,7 @@ Definition center_with (w : nat) (mean : option (list Qc)) (T : list (list Qc)) 
 Definition comb_spec (o : comb_op) (pairs : list (nat * nat)) (f1 f2 : list nat) (w : nat) (mean : option (list Qc))
   (T : list (list Qc)) : list (list Qc) :=
   let T' := match o with OpCenteredProduct => center_with w mean T | _ => T end in
-  map (comb_row (op_fun o) pairs f1 f2) T'.
+  map (comb_row 0 (op_fun o) pairs f1 f2) T'.
 
 (* ---- rounding-error magnitudes (only used to scale the tolerance of the comparison) *)
 Definition mag_fun (o : comb_op) : Qc -> Qc -> Qc :=
@@ -440,8 +465,8 @@ Definition comb_mag (o : comb_op) (pairs : list (nat * nat)) (f1 f2 : list nat) 
   | OpCenteredProduct =>
       let m := match mean with Some m => map qcabs m | None => col_maxabs w T end in
       let k := qc_of_nat (length T + 3) in
-      map (fun row => map (Qcmult k) (comb_row Qcmult pairs f1 f2 (add_rows (map qcabs row) m))) T
-  | _ => map (fun row => comb_row (mag_fun o) pairs f1 f2 (map qcabs row)) T
+      map (fun row => map (Qcmult k) (comb_row 0 Qcmult pairs f1 f2 (add_rows (map qcabs row) m))) T
+  | _ => map (fun row => comb_row 0 (mag_fun o) pairs f1 f2 (map qcabs row)) T
   end.
 
 (* ---- observations *)
@@ -458,75 +483,509 @@ Definition rows_qc (M : list (list fval)) : option (list (list Qc)) :=
 Definition uround_dt (d : dtype) : Qc :=
   match d with DF64 => Q2Qc u64 | DF32 => Q2Qc u32 | _ => Q2Qc (1 # 2048) end.
 
-(* |obs - v| <= ulps * u * mag *)
-Definition close_to (ulps : Qc) (u : Qc) (obs : fval) (v mag : Qc) : bool :=
-  match fval_qc obs with
-  | Some x => Qle_bool (qcabs (x - v)) (ulps * u * mag)
-  | None => false
+(* an expected value together with what the comparison needs:
+   XQ v mag            the rational v, rounding-error scale mag
+   XDivSqrt num var m  num / sqrt(var) (never computed: compared through squares); var = 0 -> 0/0 = NaN, x/0 = +-inf
+   XSqrt q             the non-negative square root of q
+   XBad                outside the modelled domain *)
+Inductive xval := XQ (v mag : Qc) | XDivSqrt (num var mag : Qc) | XSqrt (q : Qc) | XBad.
+
+Definition close_x (ulps u : Qc) (obs : fval) (e : xval) : bool :=
+  match e with
+  | XQ v mag =>
+      match fval_qc obs with
+      | Some x => qc_le (qcabs (x - v)) (ulps * u * mag)
+      | None => false
+      end
+  | XDivSqrt num var mag =>
+      let E := ulps * u * mag in
+      if qc_eqb var 0 then
+        (if qc_eqb num 0 then is_nan obs
+         else match obs with PInf => qc_lt 0 num | NInf => qc_lt num 0 | _ => false end)
+      else
+        match fval_qc obs with
+        | Some x =>
+            qc_le (qcabs (x * x * var - num * num)) (E * ((1 + 1) * qcabs num + E))
+            && (if qc_lt E num then qc_lt 0 x else true) && (if qc_lt num (- E) then qc_lt x 0 else true)
+        | None => qc_le var (E * E)      (* so ill-conditioned that the float deviation cannot be told from zero *)
+        end
+  | XSqrt q =>
+      match fval_qc obs with
+      | Some x => qc_le 0 x && qc_le (qcabs (x * x - q)) (ulps * u * q)
+      | None => false
+      end
+  | XBad => false
   end.
 
-Definition rows_close (ulps u : Qc) (obs : list (list fval)) (exp mag : list (list Qc)) : bool :=
-  forallb2 (fun o em => forallb2 (fun x vm => close_to ulps u x (fst vm) (snd vm)) o (combine (fst em) (snd em)))
-           obs (combine exp mag)
-  && (length exp =? length mag)%nat
-  && forallb2 (fun e m => (length e =? length m)%nat) exp mag.
+Definition rows_close_x (ulps u : Qc) (obs : list (list fval)) (exp : list (list xval)) : bool :=
+  forallb2 (fun o e => forallb2 (close_x ulps u) o e) obs exp.
 
-Definition rect (w : nat) (T : list (list Qc)) : bool := forallb (fun r => (length r =? w)%nat) T.
+Definition rect {A} (w : nat) (T : list (list A)) : bool := forallb (fun r => (length r =? w)%nat) T.
+
+(* a mean / std vector given by the user: its dtype and values; numpy broadcasts a vector of length 1 *)
+Definition given_vec (w : nat) (g : dtype * list fval) : outcome (list Qc) :=
+  match fvals_qc (snd g) with
+  | None => Unsupported
+  | Some m =>
+      if (length m =? w)%nat then Done m
+      else if (length m =? 1)%nat then Done (repeat (nth 0 m 0) w)
+      else if (w =? 1)%nat then Unsupported      (* (n,1) - (k,) broadcasts to (n,k): not a documented use *)
+      else Rejected
+  end.
+
+(* dtype of CenterOn(mean, precision)(traces) *)
+Definition center_on_dtype (d p : dtype) (mean : option dtype) : dtype :=
+  let P := promote d p in
+  match mean with Some md => promote2 P md | None => promote2 P (promote P DF32) end.
 
 Record comb_case := {
   cc_op : comb_op;
   cc_cfg : comb_cfg;
   cc_dtype : dtype;                               (* dtype of the traces *)
-  cc_prec : prec;                                 (* precision argument *)
-  cc_mean : option (prec * list fval);            (* CenteredProduct(mean=...): dtype and values, None = batch mean *)
+  cc_prec : dtype;                                (* precision argument *)
+  cc_mean : option (dtype * list fval);           (* CenteredProduct(mean=...): dtype and values, None = batch mean *)
   cc_width : nat;
   cc_in : list (list fval);                       (* the traces, row by row, exact *)
   cc_obs : observed
 }.
 
-(* output dtype: the promoted dtype; a given mean array of a wider float dtype widens the centred traces *)
 Definition comb_out_dtype (c : comb_case) : dtype :=
-  let d := promote (cc_dtype c) (cc_prec c) in
-  match cc_op c, cc_mean c with
-  | OpCenteredProduct, Some (F64, _) => DF64
-  | _, _ => d
+  match cc_op c with
+  | OpCenteredProduct => promote (center_on_dtype (cc_dtype c) (cc_prec c) (option_map fst (cc_mean c))) (cc_prec c)
+  | _ => promote (cc_dtype c) (cc_prec c)
   end.
 
-(* expected values and magnitudes *)
-Definition comb_expected (c : comb_case) : outcome (dtype * list (list Qc) * list (list Qc)) :=
+Definition zip_x (exp mag : list (list Qc)) : list (list xval) :=
+  map (fun em => map (fun vm => XQ (fst vm) (snd vm)) (combine (fst em) (snd em))) (combine exp mag).
+
+(* expected dtype and values *)
+Definition comb_expected (c : comb_case) : outcome (dtype * list (list xval)) :=
   match rows_qc (cc_in c) with
   | None => Unsupported
   | Some T =>
       if negb (rect (cc_width c) T) then Unsupported else
+      if negb (is_float (cc_prec c)) then Unsupported else
       bind_outcome (comb_dispatch (cc_cfg c) (cc_width c)) (fun k =>
         match kind_pairs k with
         | None => Rejected
         | Some pairs =>
             let '(f1, f2) := kind_frames k in
-            let mean := match cc_mean c with Some (_, m) => Some (fvals_qc m) | None => None end in
-            match mean with
-            | Some None => Unsupported
-            | Some (Some m) =>
-                if negb (length m =? cc_width c)%nat then Unsupported
-                else Done (comb_out_dtype c, comb_spec (cc_op c) pairs f1 f2 (cc_width c) (Some m) T,
-                           comb_mag (cc_op c) pairs f1 f2 (cc_width c) (Some m) T)
-            | None =>
-                Done (comb_out_dtype c, comb_spec (cc_op c) pairs f1 f2 (cc_width c) None T,
-                      comb_mag (cc_op c) pairs f1 f2 (cc_width c) None T)
+            let go mean := Done (comb_out_dtype c,
+                                 zip_x (comb_spec (cc_op c) pairs f1 f2 (cc_width c) mean T)
+                                       (comb_mag (cc_op c) pairs f1 f2 (cc_width c) mean T)) in
+            match cc_op c, cc_mean c with
+            | OpCenteredProduct, Some g => bind_outcome (given_vec (cc_width c) g) (fun m => go (Some m))
+            | _, _ => go None
             end
         end)
   end.
 
 Definition eight : Qc := Q2Qc 8.
 
-Definition comb_check (c : comb_case) : bool :=
-  match comb_expected c, cc_obs c with
+Definition obs_matches (ulps : Qc) (e : outcome (dtype * list (list xval))) (o : observed) : bool :=
+  match e, o with
   | Rejected, ObsRaised => true
-  | Done (dt, exp, mag), ObsOut dt' rows =>
-      dtype_eqb dt dt' && rows_close eight (uround_dt dt) rows exp mag
+  | Done (dt, exp), ObsOut dt' rows => dtype_eqb dt dt' && rows_close_x ulps (uround_dt dt) rows exp
   | _, _ => false
   end.
 
+Definition comb_check (c : comb_case) : bool := obs_matches eight (comb_expected c) (cc_obs c).
+
 (* for replay files: what the model expects *)
+Definition xval_show (e : xval) : Q * Q :=
+  match e with XQ v _ => (this v, 1%Q) | XDivSqrt n v _ => (this n, this v) | XSqrt q => (1%Q, this q) | XBad => (0%Q, 0%Q) end.
 Definition comb_explain (c : comb_case) : outcome (dtype * list (list Q)) :=
-  bind_outcome (comb_expected c) (fun x => Done (fst (fst x), map (map this) (snd (fst x)))).
+  bind_outcome (comb_expected c) (fun x => Done (fst x, map (map (fun e => fst (xval_show e))) (snd x))).
+
+(* ================================================================ 6. first-order preprocesses *)
+
+Definition given := option (dtype * list fval).
+
+Inductive fo_op :=
+| FoSquare
+| FoCenter
+| FoStandardize
+| FoToPower (k : Z) (p : dtype)
+| FoCenterOn (mean : given) (p : dtype)
+| FoStandardizeOn (mean std : given) (p : dtype)
+| FoSerializeBit.
+
+(* x^k for an integer k; None = 0 to a negative power *)
+Definition qc_pow (x : Qc) (k : Z) : option Qc :=
+  if (0 <=? k)%Z then Some (Qcpower x (Z.to_nat k))
+  else if qc_eqb x 0 then None else Some (/ Qcpower x (Z.to_nat (- k))).
+
+(* population variance of a column: sum of squared deviations from the mean / n  (numpy nanstd, ddof = 0, squared) *)
+Definition col_vars (w : nat) (T : list (list Qc)) : list Qc :=
+  map (fun j => let l := column_of T j in ssd l / qlen l) (seq 0 w).
+
+(* one output row from one input row and per-column parameters *)
+Definition map3 {A B C D} (f : A -> B -> C -> D) (la : list A) (lb : list B) (lc : list C) : list D :=
+  map (fun abc => f (fst (fst abc)) (snd (fst abc)) (snd abc)) (combine (combine la lb) lc).
+Definition map2 {A B C} (f : A -> B -> C) (la : list A) (lb : list B) : list C :=
+  map (fun ab => f (fst ab) (snd ab)) (combine la lb).
+
+(* bits of a byte, most significant first *)
+Definition byte_bits (b : Z) : list Z := map (fun i => Z.b2z (Z.testbit b (7 - Z.of_nat i))) (seq 0 8).
+Definition serialize_row (row : list Z) : list Z := flat_map (fun x => byte_bits (x mod 256)%Z) row.
+
+Definition qc_to_z (q : Qc) : option Z := if (Qden q =? 1)%positive then Some (Qnum q) else None.
+
+(* the formulas, on exact rationals; [n3] = number of traces + 3 scales the tolerance of batch statistics *)
+Definition fo_center_rows (n3 : Qc) (m mx : list Qc) (T : list (list Qc)) : list (list xval) :=
+  map (fun row => map3 (fun x mj aj => XQ (x - mj) (n3 * (qcabs x + aj))) row m mx) T.
+
+Definition fo_standardize_rows (n3 : Qc) (m v mx : list Qc) (T : list (list Qc)) : list (list xval) :=
+  map (fun row => map3 (fun x mv aj => XDivSqrt (x - fst mv) (snd mv) (n3 * (qcabs x + aj))) row (combine m v) mx) T.
+
+Definition fo_divide_rows (k : Qc) (m mx s : list Qc) (T : list (list Qc)) : list (list xval) :=
+  map (fun row => map3 (fun x mm sj => if qc_eqb sj 0 then XBad else XQ ((x - fst mm) / sj) (k * (qcabs x + snd mm) / qcabs sj))
+                       row (combine m mx) s) T.
+
+(* numpy.nanstd subtracts the mean inside a copy of the input array when that array is a float array: float16 / float32
+   traces lose the deviations' low bits there, whatever dtype was requested (numpy behaviour, observed) — the tolerance
+   of the standardised values follows.  [prec_loss s dt]: a statistic computed in dtype s feeding an output of dtype dt. *)
+Definition prec_loss (s dt : dtype) : Qc := qcmax 1 (uround_dt s / uround_dt dt).
+Definition std_loss (d dt : dtype) : Qc := if is_float d then prec_loss d dt else 1.
+
+Record fo_case := {
+  fo_kind : fo_op;
+  fo_dtype : dtype;
+  fo_width : nat;
+  fo_in : list (list fval);
+  fo_obs : observed
+}.
+
+Definition opt_dtype (g : given) : option dtype := option_map fst g.
+
+Definition fo_expected (c : fo_case) : outcome (dtype * list (list xval)) :=
+  let d := fo_dtype c in
+  let w := fo_width c in
+  match rows_qc (fo_in c) with
+  | None => Unsupported
+  | Some T =>
+      if negb (rect w T) then Unsupported else
+      let n3 := qc_of_nat (length T + 3) in
+      let P32 := promote d DF32 in
+      match fo_kind c with
+      | FoSquare => Done (P32, map (map (fun x => XQ (x * x) (x * x))) T)
+      | FoCenter =>
+          (* traces - nanmean(traces, axis=0, dtype=P) *)
+          Done (promote2 d P32, fo_center_rows n3 (col_means w T) (col_maxabs w T) T)
+      | FoStandardize =>
+          let dt := promote2 (promote2 d P32) P32 in
+          Done (dt, fo_standardize_rows (n3 * std_loss d dt) (col_means w T) (col_vars w T) (col_maxabs w T) T)
+      | FoToPower k p =>
+          if negb (is_float p) then Unsupported else
+          Done (promote d p, map (map (fun x => match qc_pow x k with Some v => XQ v (qcabs v) | None => XBad end)) T)
+      | FoCenterOn mean p =>
+          if negb (is_float p) then Unsupported else
+          let dt := center_on_dtype d p (opt_dtype mean) in
+          match mean with
+          | None => Done (dt, fo_center_rows n3 (col_means w T) (col_maxabs w T) T)
+          | Some g => bind_outcome (given_vec w g) (fun m => Done (dt, fo_center_rows 1 m (map qcabs m) T))
+          end
+      | FoStandardizeOn mean std p =>
+          if negb (is_float p) then Unsupported else
+          let P := promote d p in
+          let md := match mean with Some g => fst g | None => P end in
+          let sd := match std with Some g => fst g | None => P end in
+          let dt := promote2 (promote2 d md) sd in
+          bind_outcome (match mean with Some g => given_vec w g | None => Done (col_means w T) end) (fun m =>
+          match std with
+          | Some g => bind_outcome (given_vec w g) (fun s =>
+              match mean with
+              | Some _ => Done (dt, fo_divide_rows 1 m (map qcabs m) s T)
+              | None => Done (dt, fo_divide_rows (n3 * prec_loss P dt) m (col_maxabs w T) s T)      (* the mean is a float sum over the batch *)
+              end)
+          | None =>
+              (* nanstd is taken around the mean of the batch even when another mean is given *)
+              let mx := map2 (fun a b => a + b) (col_maxabs w T) (map qcabs m) in
+              Done (dt, fo_standardize_rows (n3 * qcmax (prec_loss P dt) (std_loss d dt)) m (col_vars w T) mx T)
+          end)
+      | FoSerializeBit =>
+          match fold_right (fun r acc => match fold_right (fun q a => match qc_to_z q, a with Some z, Some t => Some (z :: t) | _, _ => None end) (Some []) r, acc with
+                                         | Some r', Some t => Some (r' :: t) | _, _ => None end) (Some []) T with
+          | Some TZ => Done (DU8, map (fun row => map (fun b => XQ (qc_of_z b) 0) (serialize_row row)) TZ)
+          | None => Unsupported
+          end
+      end
+  end.
+
+Definition sixteen : Qc := Q2Qc 16.
+Definition fo_check (c : fo_case) : bool := obs_matches sixteen (fo_expected c) (fo_obs c).
+Definition fo_explain (c : fo_case) : outcome (dtype * list (list (Q * Q))) :=
+  bind_outcome (fo_expected c) (fun x => Done (fst x, map (map xval_show) (snd x))).
+
+(* ================================================================ 7. time-frequency preprocesses *)
+
+Definition cplx := (Qc * Qc)%type.
+Definition cconj (a : cplx) : cplx := (fst a, - snd a).
+Definition cmul (a b : cplx) : cplx := (fst a * fst b - snd a * snd b, fst a * snd b + snd a * fst b).
+Definition norm2 (a : cplx) : Qc := fst a * fst a + snd a * snd a.
+Definition cnorm1 (a : cplx) : Qc := qcabs (fst a) + qcabs (snd a).
+
+(* a real result: a rational, or the non-negative square root of a rational (np.abs of a complex number) *)
+Inductive rv := Rat (q : Qc) | Sqrt (q : Qc).
+Definition rv_sq (v : rv) : rv := match v with Rat q => Rat (q * q) | Sqrt q => Rat q end.
+Definition cabs (a : cplx) : rv := Sqrt (norm2 a).
+
+Inductive tf_op := TXcorr | TWindowFFT | TWindowFHT | TMaxCorr | TConcatFFT | TConcatFHT.
+Inductive tf_mode := MRaw | MCentered | MStandardized.
+
+Definition tf_is_p2p (o : tf_op) : bool := match o with TXcorr | TWindowFFT | TWindowFHT => true | _ => false end.
+
+(* _handle_none_frame: when one frame is None the other one is used for both *)
+Definition handle_none_frame (f1 f2 : frame_spec) : frame_spec * frame_spec :=
+  if is_fnone f1 || is_fnone f2 then (let f := if is_fnone f1 then f2 else f1 in (f, f)) else (f1, f2).
+
+(* constructor + traces[:, frame] of the time-frequency classes *)
+Definition tf_frames (p2p : bool) (f1 f2 : frame_spec) (w : nat) : outcome (list nat * list nat) :=
+  let '(g1, g2) := handle_none_frame f1 f2 in
+  match set_frame g1, set_frame g2 with
+  | Some s1, Some s2 =>
+      let ok := if p2p then p2p_len_ok s1 s2 else Some true in
+      match ok with
+      | Some true =>
+          bind_outcome (frame_columns w true s1) (fun c1 =>
+          bind_outcome (frame_columns w true s2) (fun c2 => Done (c1, c2)))
+      | _ => Rejected
+      end
+  | _, _ => Rejected
+  end.
+
+Definition sel_row {A} (d : A) (cols : list nat) (row : list A) : list A := map (fun c => nth c row d) cols.
+
+Section TimeFrequency.
+  (* numpy.fft.rfft / irfft / fft along axis 1 and the standardize preprocess are oracles: every theorem about the
+     definitions below holds for ALL functions *)
+  Variable rfft : list Qc -> list cplx.
+  Variable irfft : list cplx -> list Qc.
+  Variable fft : list Qc -> list cplx.
+  Variable stdz : list (list Qc) -> list (list Qc).
+
+  (* _fht: real part minus imaginary part of rfft *)
+  Definition fht (el : list Qc) : list Qc := map (fun a => fst a - snd a) (rfft el).
+
+  (* the _operation methods, on one trace *)
+  Definition tf_operation (o : tf_op) (el1 el2 : list Qc) : list rv :=
+    match o with
+    | TXcorr => map Rat (irfft (map2 cmul (map cconj (rfft el1)) (rfft el2)))
+    | TWindowFFT => map cabs (map2 cmul (map cconj (rfft el1)) (rfft el2))
+    | TWindowFHT => map Rat (map2 Qcmult (fht el1) (fht el2))
+    | TMaxCorr => let f := rfft (el1 ++ el2) in map Rat (map fst f) ++ map Rat (map snd f) ++ map cabs f
+    | TConcatFFT => map rv_sq (map cabs (rfft (el1 ++ el2)))
+    | TConcatFHT => map (fun x => Rat (x * x)) (fht (el1 ++ el2))
+    end.
+
+  (* mode dispatch: 'centered' -> center, 'standardized' -> standardize, anything else -> identity *)
+  Definition tf_pre (m : tf_mode) (T : list (list Qc)) : list (list Qc) :=
+    match m with
+    | MRaw => T
+    | MCentered => center_with (length (hd [] T)) None T
+    | MStandardized => stdz T
+    end.
+
+  (* __call__ *)
+  Definition tf_call (o : tf_op) (m : tf_mode) (c1 c2 : list nat) (T : list (list Qc)) : list (list rv) :=
+    let t1 := tf_pre m (map (sel_row 0 c1) T) in
+    let t2 := tf_pre m (map (sel_row 0 c2) T) in
+    map2 (tf_operation o) t1 t2.
+
+  (* fft_modulus: the first ceil(w / 2) moduli of the full FFT *)
+  Definition fft_modulus_row (row : list Qc) : list rv := firstn ((length row + 1) / 2)%nat (map cabs (fft row)).
+End TimeFrequency.
+
+(* rounding-error scales of the operations, given the oracle values (only used by the comparison) *)
+Definition tf_mags (o : tf_op) (F1 F2 Fcat : list cplx) (n_irfft : nat) : list Qc :=
+  match o with
+  | TXcorr =>
+      let s := qsum (map2 (fun a b => cnorm1 a * cnorm1 b) F1 F2) in
+      repeat (s * (1 + 1) / qc_of_nat (Nat.max 1 n_irfft)) n_irfft
+  | TWindowFHT => map2 (fun a b => cnorm1 a * cnorm1 b) F1 F2
+  | TConcatFHT => map (fun a => cnorm1 a * cnorm1 a) Fcat
+  | TConcatFFT => map norm2 Fcat
+  | TMaxCorr => map (fun _ => 0) Fcat ++ map (fun _ => 0) Fcat
+  | _ => []
+  end.
+
+(* oracle tables: what numpy returned on this run, exactly *)
+Definition fcplx := (fval * fval)%type.
+Definition fcplx_qc (l : list fcplx) : option (list cplx) :=
+  fold_right (fun v acc => match fval_qc (fst v), fval_qc (snd v), acc with Some a, Some b, Some t => Some ((a, b) :: t) | _, _, _ => None end) (Some []) l.
+
+Definition qclist_eqb := list_eqb qc_eqb.
+
+Definition rfft_table := list (list Qc * list cplx).
+Definition irfft_table := list (list cplx * list Qc).
+
+Definition lookup_rfft (tbl : rfft_table) (x : list Qc) : list cplx :=
+  match find (fun e => qclist_eqb (fst e) x) tbl with Some e => snd e | None => [] end.
+
+(* irfft is looked up by approximate key: the code applies it to a float product *)
+Definition cplx_close (tol : Qc) (a b : cplx) : bool :=
+  qc_le (qcabs (fst a - fst b)) tol && qc_le (qcabs (snd a - snd b)) tol.
+Definition lookup_irfft (tbl : irfft_table) (tol : Qc) (x : list cplx) : list Qc :=
+  match find (fun e => forallb2 (cplx_close tol) (fst e) x) tbl with Some e => snd e | None => [] end.
+
+Record tf_case := {
+  tf_kind : tf_op;
+  tf_md : tf_mode;
+  tf_f1 : frame_spec;
+  tf_f2 : frame_spec;
+  tf_dtype : dtype;
+  tf_width : nat;
+  tf_in : list (list fval);
+  tf_x1 : list (list fval);                       (* what the harness fed to numpy's rfft: the preprocessed chunks *)
+  tf_x2 : list (list fval);
+  tf_rfft : list (list fval * list fcplx);        (* numpy.fft.rfft on this run: input row -> output row *)
+  tf_irfft : list (list fcplx * list fval);       (* numpy.fft.irfft on this run *)
+  tf_obs : observed
+}.
+
+Definition conv_rfft (t : list (list fval * list fcplx)) : option rfft_table :=
+  fold_right (fun e acc => match fvals_qc (fst e), fcplx_qc (snd e), acc with Some k, Some v, Some t => Some ((k, v) :: t) | _, _, _ => None end) (Some []) t.
+Definition conv_irfft (t : list (list fcplx * list fval)) : option irfft_table :=
+  fold_right (fun e acc => match fcplx_qc (fst e), fvals_qc (snd e), acc with Some k, Some v, Some t => Some ((k, v) :: t) | _, _, _ => None end) (Some []) t.
+
+(* dtype of the chunk after the mode's preprocess, and of numpy's FFT on it (float16/32 -> single, else double) *)
+Definition tf_pre_dtype (m : tf_mode) (d : dtype) : dtype :=
+  match m with MRaw => d | _ => promote2 d (promote d DF32) end.
+Definition fft_dtype (d : dtype) : dtype := match d with DF16 | DF32 => DF32 | _ => DF64 end.
+
+(* the harness's preprocessed chunk against the model's: exact in raw mode *)
+Definition pre_ok (m : tf_mode) (u loss : Qc) (chunk : list (list Qc)) (x : list (list fval)) : bool :=
+  let w := length (hd [] chunk) in
+  let n3 := qc_of_nat (length chunk + 3) in
+  match m with
+  | MRaw => rows_close_x 0 u x (map (map (fun v => XQ v 0)) chunk)
+  | MCentered => rows_close_x sixteen u x (fo_center_rows n3 (col_means w chunk) (col_maxabs w chunk) chunk)
+  | MStandardized => rows_close_x sixteen u x (fo_standardize_rows (n3 * loss) (col_means w chunk) (col_vars w chunk) (col_maxabs w chunk) chunk)
+  end.
+
+Definition rv_x (v : rv) (mag : Qc) : xval := match v with Rat q => XQ q mag | Sqrt q => XSqrt q end.
+
+(* circular cross-correlation, straight from its definition (independent of any FFT): out[k] = sum_n a[n] * b[(n + k) mod N] *)
+Definition circ_xcorr (a b : list Qc) : list Qc :=
+  let N := length a in
+  map (fun k => qsum (map (fun n => nth n a 0 * nth ((n + k) mod N)%nat b 0) (seq 0 N))) (seq 0 N).
+
+Definition thirtytwo : Qc := Q2Qc 32.
+Definition k256 : Qc := Q2Qc 256.
+
+Definition tf_expected (c : tf_case) : outcome (dtype * list (list xval)) :=
+  let w := tf_width c in
+  match rows_qc (tf_in c), rows_qc (tf_x1 c), rows_qc (tf_x2 c), conv_rfft (tf_rfft c), conv_irfft (tf_irfft c) with
+  | Some T, Some X1, Some X2, Some rt, Some it =>
+      if negb (rect w T) then Unsupported else
+      bind_outcome (tf_frames (tf_is_p2p (tf_kind c)) (tf_f1 c) (tf_f2 c) w) (fun cc =>
+        let '(c1, c2) := cc in
+        let dt := fft_dtype (tf_pre_dtype (tf_md c) (tf_dtype c)) in
+        let u := uround_dt dt in
+        let pdt := tf_pre_dtype (tf_md c) (tf_dtype c) in
+        let loss := std_loss (tf_dtype c) pdt in
+        let n1 := length c1 in
+        let n2 := length c2 in
+        (* numpy refuses an FFT of 0 points; irfft of a 1-point spectrum asks for 0 points *)
+        if (if tf_is_p2p (tf_kind c) then (n1 =? 0)%nat || (n2 =? 0)%nat else (n1 + n2 =? 0)%nat) then Rejected else
+        if (match tf_kind c with TXcorr => (n1 <=? 1)%nat | _ => false end) then Rejected else
+        if pre_ok (tf_md c) (uround_dt pdt) loss (map (sel_row 0 c1) T) (tf_x1 c) && pre_ok (tf_md c) (uround_dt pdt) loss (map (sel_row 0 c2) T) (tf_x2 c) then
+          Done (dt, map2 (fun x1 x2 =>
+                  let F1 := lookup_rfft rt x1 in
+                  let F2 := lookup_rfft rt x2 in
+                  let Fc := lookup_rfft rt (x1 ++ x2) in
+                  let s := qsum (map2 (fun a b => cnorm1 a * cnorm1 b) F1 F2) in
+                  let out := tf_operation (lookup_rfft rt) (lookup_irfft it (thirtytwo * u * s)) (tf_kind c) x1 x2 in
+                  let mags := tf_mags (tf_kind c) F1 F2 Fc (length out) in
+                  map (fun vm => rv_x (fst vm) (snd vm)) (combine out (mags ++ repeat 0 (length out)))) X1 X2)
+        else Unsupported)
+  | _, _, _, _, _ => Unsupported
+  end.
+
+(* Xcorr on frames of even length is also compared with the circular cross-correlation of the preprocessed chunks *)
+Definition xcorr_direct_ok (c : tf_case) : bool :=
+  match tf_kind c, rows_qc (tf_x1 c), rows_qc (tf_x2 c), tf_obs c with
+  | TXcorr, Some X1, Some X2, ObsOut dt rows =>
+      forallb2 (fun xx o =>
+        let '(a, b) := xx in
+        if Nat.even (length a) then
+          let s := qsum (map2 (fun p q => qcabs p * qcabs q) a b) in
+          forallb2 (fun ov e => close_x k256 (uround_dt dt) ov (XQ e s)) o (circ_xcorr a b)
+        else true) (combine X1 X2) rows
+  | _, _, _, _ => true
+  end.
+
+Definition tf_check (c : tf_case) : bool := obs_matches thirtytwo (tf_expected c) (tf_obs c) && xcorr_direct_ok c.
+Definition tf_explain (c : tf_case) : outcome (dtype * list (list (Q * Q))) :=
+  bind_outcome (tf_expected c) (fun x => Done (fst x, map (map xval_show) (snd x))).
+
+(* fft_modulus *)
+Record fm_case := {
+  fm_dtype : dtype;
+  fm_in : list (list fval);
+  fm_fft : list (list fval * list fcplx);         (* numpy.fft.fft on this run *)
+  fm_obs : observed
+}.
+
+Definition fm_expected (c : fm_case) : outcome (dtype * list (list xval)) :=
+  match rows_qc (fm_in c), conv_rfft (fm_fft c) with
+  | Some T, Some ft => Done (fft_dtype (fm_dtype c), map (fun row => map (fun v => rv_x v 0) (fft_modulus_row (lookup_rfft ft) row)) T)
+  | _, _ => Unsupported
+  end.
+Definition fm_check (c : fm_case) : bool := obs_matches thirtytwo (fm_expected c) (fm_obs c).
+
+(* ================================================================ 8. row independence on the code; promote_types table *)
+
+Definition fval_eqb (a b : fval) : bool :=
+  match a, b with
+  | Fin m e, Fin m' e' => Z.eqb m m' && Z.eqb e e'
+  | NaN, NaN | PInf, PInf | NInf, NInf => true
+  | _, _ => false
+  end.
+
+(* f(batch)[r] against f(batch[r:r+1])[0], bit for bit *)
+Record ri_case := { ri_batch : observed; ri_single : list observed }.
+
+Definition ri_check (c : ri_case) : bool :=
+  match ri_batch c with
+  | ObsRaised => forallb (fun s => match s with ObsRaised => true | _ => false end) (ri_single c)
+  | ObsOut dt rows =>
+      forallb2 (fun row s => match s with
+                             | ObsOut dt' [row'] => dtype_eqb dt dt' && list_eqb fval_eqb row row'
+                             | _ => false
+                             end) rows (ri_single c)
+  end.
+
+(* numpy.promote_types(a, b) as observed on this run *)
+Record pt_case := { pt_a : dtype; pt_b : dtype; pt_obs : option dtype }.
+Definition pt_check (c : pt_case) : bool :=
+  match pt_obs c with Some d => dtype_eqb (promote2 (pt_a c) (pt_b c)) d | None => false end.
+
+(* ================================================================ 9. the @preprocess decorator / Preprocess metaclass *)
+Inductive dec_outcome := DecTypeError | DecValueError | DecPreprocessError | DecOk.
+
+Definition dec_outcome_eqb (a b : dec_outcome) : bool :=
+  match a, b with
+  | DecTypeError, DecTypeError | DecValueError, DecValueError | DecPreprocessError, DecPreprocessError | DecOk, DecOk => true
+  | _, _ => false
+  end.
+
+(* the checks of preprocesses/_base.py in their order: input an ndarray, 2-D; result an ndarray, 2-D, same number of traces *)
+Definition decorator_model (in_is_array : bool) (in_ndim : nat) (out_is_array : bool) (out_ndim rows_in rows_out : nat) : dec_outcome :=
+  if negb in_is_array then DecTypeError
+  else if negb (in_ndim =? 2)%nat then DecValueError
+  else if negb out_is_array then DecPreprocessError
+  else if negb (out_ndim =? 2)%nat then DecPreprocessError
+  else if negb (rows_out =? rows_in)%nat then DecPreprocessError
+  else DecOk.
+
+Record dec_case := {
+  dec_in_array : bool; dec_in_ndim : nat; dec_out_array : bool; dec_out_ndim : nat; dec_rows_in : nat; dec_rows_out : nat;
+  dec_obs : option dec_outcome                    (* None = some other exception *)
+}.
+
+Definition dec_check (c : dec_case) : bool :=
+  match dec_obs c with
+  | Some o => dec_outcome_eqb o (decorator_model (dec_in_array c) (dec_in_ndim c) (dec_out_array c) (dec_out_ndim c) (dec_rows_in c) (dec_rows_out c))
+  | None => false
+  end.
